@@ -141,6 +141,9 @@ pub fn generate(prop: &str, thorough: bool, rng: &mut Rng) -> Case {
                 fail_pct: 10,
                 resize_max: 10,
             };
+            // a quarter of the runs: some fetches are abandoned by their caller (the waiter's channel is closed when
+            // the fetch task delivers; the reference reserved for it must be given back)
+            let abandon = rng.chance(1, 4);
             if rng.chance(7, 10) {
                 cfg.insert("stepwise".into(), 1);
                 let n = (6 + rng.below(30)) * scale;
@@ -154,6 +157,14 @@ pub fn generate(prop: &str, thorough: bool, rng: &mut Rng) -> Case {
                 for _ in 0..nc {
                     let n = (3 + rng.below(6)) * scale;
                     clients.push(gen_ops(rng, n, keys, &mix, &mut vc));
+                }
+            }
+            if abandon {
+                for ops in clients.iter_mut() {
+                    for _ in 0..1 + rng.below(2) {
+                        let at = rng.below(ops.len() + 1);
+                        ops.insert(at, Op::AbandonFetch { k: rng.below(keys as usize) as u64, ver: vc.next(), w: 1 + rng.below(2) as u32, yields: 1 + rng.below(3) as u8, polls: rng.below(3) as u8 });
+                    }
                 }
             }
         }
@@ -335,6 +346,10 @@ pub fn generate(prop: &str, thorough: bool, rng: &mut Rng) -> Case {
             cfg.insert("reenter".into(), 1);
             cfg.insert("check_locks".into(), 1);
             cfg.insert("pipe".into(), rng.below(2) as i64);
+            // a quarter of the runs: no event listener (whether destructors run under a lock must not depend on one)
+            if rng.chance(1, 4) {
+                cfg.insert("no_listener".into(), 1);
+            }
             cfg.insert("filter_mod".into(), if rng.chance(1, 3) { 3 } else { 0 });
             cfg.insert("sweep".into(), 0);
             let mix = Mix {
